@@ -151,6 +151,22 @@ def vsnprintf (s : St) (p : CPtr) (size : Nat) (out : List Nat) : Option St :=
     | none => none
   | _ => none
 
+/-- `memcmp` on two byte lists of the same length: zero iff equal, else the difference of the first differing bytes -/
+def memcmpL : List Nat → List Nat → Int
+  | x :: xs, y :: ys => if x = y then memcmpL xs ys else (x : Int) - (y : Int)
+  | _, _ => 0
+
+/-- `Memory::compare(p, q, n)`: both ranges are read and branched on (all `n` chars must be initialised) -/
+def memCompare (s : St) (p q : CPtr) (n : Nat) : Option Int := do
+  let a ← rdRange s p.base p.off n
+  let a ← allSome a
+  let b ← rdRange s q.base q.off n
+  let b ← allSome b
+  pure (memcmpL a b)
+
+/-- `p - n` -/
+def psub (p : CPtr) (n : Nat) : CPtr := ⟨p.base, p.off - n⟩
+
 /-- `p + n` -/
 def padd (p : CPtr) (n : Nat) : CPtr := ⟨p.base, p.off + n⟩
 
